@@ -384,3 +384,4 @@ def _stored():
 
 
 _stored()
+mut('C06', 'gpu-transfer-also-ports', 'wave_sim.py', "    if y < ppio_start: return  # only state elements", "    # if y < ppio_start: return  # only state elements", 'C06.transfer')
